@@ -63,6 +63,7 @@ class Contract:
         field_types=None,
         interfere=None,
         rely=None,
+        graph_node_type=None,
     ):
         self.func = func
         self.params = params or {}
@@ -86,6 +87,7 @@ class Contract:
         self.pure_function = pure_function  # at calls: result is an uninterpreted function of the arguments
         self.stable = stable or {}  # GUARANTEE: must hold across every simple statement (prev() = state before it)
         self.interfere = interfere or []  # heap locations other threads may change between any two statements
+        self.graph_node_type = graph_node_type  # class of the nodes of every graph whose nodes the function iterates (checked)
         self.rely = rely or {}  # RELY: what the interference preserves (prev() = state before the interference)
 
     def props_of(self, clause):
